@@ -586,9 +586,14 @@ class FileStoragePacker(FileStorageFormatter):
                         # we're looking at isn't a dup of the current
                         # record. There's a bug in ZEO blob support that causes
                         # duplicate data records.
-                        rpos = self.gc.reachable.get(h.oid)
-                        is_dup = (
-                            rpos and self._read_data_header(rpos).tid == h.tid)
+                        # The same goes for a record of this transaction
+                        # that is kept because a later record points back
+                        # to it: both share one blob file.
+                        rposs = [self.gc.reachable.get(h.oid)]
+                        rposs.extend(self.gc.reach_ex.get(h.oid, ()))
+                        is_dup = any(
+                            rpos and self._read_data_header(rpos).tid == h.tid
+                            for rpos in rposs)
                         if not is_dup:
                             if h.oid not in self.gc.reachable:
                                 self.blob_removed.write(
